@@ -218,6 +218,8 @@ def facing(g, a, b):
         if kx == "tup" and ky == "tup":
             ix, iy = g["tuples"][tx["t"] - 1], g["tuples"][ty["t"] - 1]
             if ix["name"] == iy["name"] and len(ix["fs"]) == len(iy["fs"]):
+                if [f["l"] for f in ix["fs"]] != [f["l"] for f in iy["fs"]]:
+                    tags.add("tup~tup:labels-differ")       # same name and arity, other labels: different types
                 for fx, fy in zip(ix["fs"], iy["fs"]):
                     walk(fx["t"], fy["t"])
         elif kx in ("tup", "par") and ky in ("tup", "par"):
@@ -256,6 +258,7 @@ K_DIV = "relation:callable-cycle-diverges"
 K_IDENT = "identity:cycle-bearing-node-shared"
 K_WIDE = "narrow:complement-of-widened-intersection"
 K_SHIFT = "narrow:cycle-depth-shift"
+K_LABEL = "narrow:tuple-difference-ignores-labels"
 
 
 def has_nested_open_union(g, a):
@@ -283,6 +286,8 @@ PINNED = {
                {"k": "tup", "t": 2}, {"k": "tup", "t": 3}, {"k": "uni", "ms": [5, 7]}, {"k": "uni", "ms": [6, 7]}],
               [{"name": "A", "fs": [{"l": "", "t": 2}]}, {"name": "A", "fs": [{"l": "", "t": 3}]},
                {"name": "B", "fs": [{"l": "", "t": 4}]}], [8, 9]),
+    K_LABEL: ([{"k": "uni", "ms": []}, {"k": "bin"}, {"k": "tup", "t": 1}, {"k": "tup", "t": 2}, {"k": "uni", "ms": [2, 3]}],
+              [{"name": "", "fs": [{"l": "", "t": 2}]}, {"name": "", "fs": [{"l": "y", "t": 2}]}], [5, 4]),
     K_WIDE: ([{"k": "uni", "ms": []}, {"k": "int"}, {"k": "bin"}, {"k": "ref"}, {"k": "tup", "t": 1},
               {"k": "tup", "t": 2}, {"k": "uni", "ms": [2, 3]}, {"k": "fn", "p": 2, "r": 5, "rc": 1},
               {"k": "fn", "p": 4, "r": 6, "rc": 1}, {"k": "fn", "p": 7, "r": 5, "rc": 1},
@@ -311,6 +316,7 @@ E2E = {
               {"k": "int", "n": 3}),
     K_WIDE: ("f = #((#'int -> A) | (#'ref -> [])) { | =(#('int | 'bin) -> A) => 1 | =(#'ref -> []) => 2 | 3 }, "
              "#'int { A } f", {"k": "int", "n": 3}),
+    K_LABEL: ("'za = 'bin | ['bin]\n'zb = [y: 'bin]\nf = #'za { | ='zb => Zq | =['bin] => 2 | 3 }, [0x01] f", {"k": "int", "n": 2}),
     K_SHIFT: ("'j = 'int | B[(A[^, ^1] | Nil)] | []\n'k = 'bin | B[(Cons[^, ^1] | Nil)] | []\n"
               "f = #'j { | ='k => 1 | =B[A[h, t]] => t { | =Nil => 2 | 3 } | 4 }\nB[A[0, Nil]] f",
               {"k": "int", "n": 2}),
@@ -336,6 +342,8 @@ def route(rule, g, roots, i, j, k=0):
             return K_CYC
         if "same-open-id" in tags:
             return K_IDENT
+        if rule == "COMPL" and "tup~tup:labels-differ" in tags:
+            return K_LABEL
         if rule == "COMPL" and has_nested_open_union(g, roots[i - 1]):
             return K_SHIFT
         if rule == "COMPL" and tags & {"fn~fn", "proc~proc", "par~par", "tup~par"}:
